@@ -1,18 +1,14 @@
 """C01: every functor handed to a ThreadPool runs exactly once, no later than ~ThreadPool returns (harness c01_submit.cpp)."""
 from specs import reg, McRun, product, MC_ASSUME, need_cover, need_outcomes  # noqa: F401
 
-OPS = ['s', 'q', 'b1', 'b2', 'b3']
-P1 = list(OPS)
-P2 = [a + b for a in OPS for b in OPS]
-# length-2 programs that force the interesting paths with poolLoadMultiplier 1: bulk fills the pool beyond its load
-# factor so the following schedule()/bulk element runs inline; FQ keeps queuing regardless
-KEY2 = ['b2s', 'b3s', 'b3b1', 'qs', 'sq', 'qq', 'b2q', 'sb3', 'qb2', 'b3b3']
+# In a program, X stands for "any one of s q b1 b2 b3"; the harness resolves it with mc::choose before any thread exists,
+# so one run (one process) explores the whole family of programs jointly with their schedules.
 
 
 def c01_runs(tier):
     runs, seen = [], set()
 
-    def add(n, mult, poll, t0, t1='-', p='-', bound=1, mode='plain', budget=40):
+    def add(n, mult, poll, t0, t1='-', p='-', bound=1, mode='plain', budget=60):
         key = (n, mult, poll, t0, t1, p, bound, mode)
         if key in seen:
             return
@@ -20,75 +16,66 @@ def c01_runs(tier):
         runs.append(McRun('c01_submit', 'submit', dict(n=n, mult=mult, poll=poll, t0=t0, t1=t1, p=p), bound=bound, mode=mode, budget=budget))
 
     quick = tier == 'quick'
-    # ---- bound 1 over the matrix
-    # n=0: everything runs inline on the submitting thread (including FQ and the "pool thread" producer)
-    for t0 in (['sq', 'b2s', 'qb3'] if quick else P2):
-        for poll in (0, 1):
-            add(0, 1, poll, t0, t1='q', p='sb2', bound=3)
-    # n=1, one external producer: every program of <= 2 submissions in wake mode with mult 1; key programs elsewhere
-    for t0 in P1 + P2:
-        add(1, 1, 0, t0)
-    for mult, poll in ((32, 0), (1, 1), (32, 1)):
-        for t0 in (KEY2 if quick else P1 + P2):
-            add(1, mult, poll, t0)
-    # n=1, two external producers
-    pairs1 = [('s', 'q'), ('s', 's'), ('q', 'b2'), ('b2', 'b2'), ('s', 'b3'), ('b3', 'q')]
-    pairs2 = [('b2s', 'q'), ('sq', 'b2'), ('qq', 'ss'), ('b3', 'b2s')]
+    # ---- bound 1 over the matrix (the runs that establish the path markers come first, then the sanitizer legs)
+    add(1, 1, 0, 'XX')                    # one producer, every program of 2 submissions
+    add(1, 1, 0, 'X', p='X')              # a pool thread as second producer
+    add(0, 1, 0, 'XX', t1='q', p='X')     # zero threads: everything inline, three producers
+    add(2, 1, 0, 'b3s', budget=90)        # n=2: bulk beyond the load factor, then schedule() runs inline
+    add(1, 1, 0, 'b2s', p='s', bound=1, mode='tsan', budget=150)
+    add(1, 1, 0, 'b2', p='s', bound=1, mode='asan', budget=150)
+    add(1, 32, 1, 'XX')                   # polling mode, default multiplier
+    add(1, 1, 0, 'X', t1='q', budget=90)  # two external producers
+    add(1, 1, 1, 'b2X')
+    add(2, 32, 0, 'qX', budget=120)
+    add(1, 32, 0, 'b2', p='X')
+    add(2, 1, 0, 'b3', p='s', budget=90)
+    add(0, 1, 1, 'XX', bound=3)
     if not quick:
-        pairs1 = [(a, b) for i, a in enumerate(P1) for b in P1[i:]]
-        pairs2 += [('b2s', 'b2s'), ('sq', 'qs'), ('b3b1', 's'), ('qb2', 'sb3'), ('sb2', 'qs')]
-    for a, b in pairs1 + (pairs2[:2] if quick else pairs2):
+        for mult, poll in ((32, 0), (1, 1)):
+            add(1, mult, poll, 'XX')
+        add(1, 1, 0, 'X', t1='X', budget=400)      # every pair of single submissions from two external producers
+        add(1, 32, 0, 'X', t1='X', budget=400)
+        add(1, 1, 1, 'X', t1='q', budget=150)
+        add(1, 1, 0, 'b2s', t1='X', budget=200)
+        add(1, 32, 0, 'X', p='X')
+        add(1, 1, 0, 'q', p='XX', budget=200)
+        add(1, 1, 0, 's', t1='q', p='X', budget=200)
+        add(1, 1, 1, 'b2', p='X')
         for mult in (1, 32):
-            add(1, mult, 0, a, t1=b)
-    for a, b in pairs1[:3]:
-        add(1, 1, 1, a, t1=b)
-    # n=1, a pool thread as producer (with and without an external one beside it)
-    for p in (['s', 'b2', 'sq'] if quick else P1 + ['sq', 'b2s', 'qb2', 'ss']):
-        for t0 in (['q', 'b2'] if quick else ['s', 'q', 'b2', 'b3', 'sq']):
-            for mult in (1, 32):
-                add(1, mult, 0, t0, p=p)
-    add(1, 1, 1, 'b2', p='s')
-    add(1, 1, 0, 's', t1='q', p='s')
-    # n=2
-    for t0 in (['b3s', 'b3b1', 'sq', 'qq', 'b2s'] if quick else P1 + KEY2):
-        for mult in (1, 32):
-            add(2, mult, 0, t0)
-    for t0 in (['b3s'] if quick else ['b3s', 'sq', 'b2q']):
-        add(2, 1, 1, t0)
-    for a, b in ([('s', 'q'), ('b3', 's')] if quick else [('s', 'q'), ('b3', 's'), ('s', 's'), ('q', 'b2'), ('b2', 'b2'), ('b3s', 'q'), ('sq', 'b2')]):
-        for mult in ((1,) if quick else (1, 32)):
-            add(2, mult, 0, a, t1=b, budget=60)
-    for t0, p in ([('b3', 's')] if quick else [('b3', 's'), ('q', 'b2'), ('s', 'sq'), ('b3', 'b1')]):
-        add(2, 1, 0, t0, p=p, budget=60)
-    if not quick:
-        add(2, 1, 0, 's', t1='q', p='s', budget=90)
-        add(2, 32, 1, 's', t1='q', budget=90)
+            add(2, mult, 0, 'XX', budget=400)
+        add(2, 1, 1, 'b3X', budget=200)
+        add(2, 1, 0, 'X', t1='q', budget=400)
+        add(2, 1, 0, 'b3', t1='X', budget=400)
+        add(2, 1, 0, 'b3', p='X', budget=300)
+        add(2, 1, 0, 's', t1='q', p='s', budget=200)
+        add(2, 32, 0, 's', t1='q', budget=300)
+        add(2, 1, 0, 'b3X', budget=300)
+        add(0, 1, 0, 'XX', t1='X', p='X', bound=2, budget=200)
+        add(0, 32, 0, 'XX', t1='XX', p='X', bound=1, budget=200)
         # ---- bound 2 on the smallest shapes, bound 3 for n=1 with one producer
-        for t0 in P1 + ['b2s', 'sq', 'qs', 'b3b1']:
-            for mult in (1, 32):
-                add(1, mult, 0, t0, bound=2, budget=60)
-        for t0 in ('b2s', 'sq'):
-            add(1, 1, 1, t0, bound=2, budget=60)
-        for t0, mult in (('s', 1), ('q', 32), ('b2', 1), ('b2s', 1), ('sq', 32)):
-            add(1, mult, 0, t0, bound=3, budget=150)
-        for a, b in (('s', 'q'), ('b2', 's')):
-            add(1, 1, 0, a, t1=b, bound=2, budget=200)
-        add(1, 1, 0, 'q', p='s', bound=2, budget=120)
-        add(1, 1, 0, 'b2', p='b1', bound=2, budget=120)
-        for t0 in ('s', 'b3s'):
-            add(2, 1, 0, t0, bound=2, budget=200)
-    # ---- sanitizer legs on small shapes
-    add(1, 1, 0, 'b2s', t1='q', bound=1, mode='tsan', budget=90)
-    add(2, 1, 0, 'b3s', bound=1, mode='tsan', budget=90)
-    add(1, 1, 0, 'b2', p='s', bound=1, mode='asan', budget=90)
-    add(1, 32, 1, 'sq', t1='b2', bound=1, mode='asan', budget=90)
+        for mult in (1, 32):
+            add(1, mult, 0, 'X', bound=2, budget=300)
+        add(1, 1, 0, 'b2X', bound=2, budget=400)
+        add(1, 1, 1, 'b2s', bound=2, budget=200)
+        add(1, 1, 0, 's', t1='q', bound=2, budget=500)
+        add(1, 1, 0, 'q', p='s', bound=2, budget=400)
+        add(2, 1, 0, 's', bound=2, budget=400)
+        add(2, 1, 0, 'b3s', bound=2, budget=500)
+        add(1, 1, 0, 'b2', bound=3, budget=500)
+        add(1, 32, 0, 'q', bound=3, budget=500)
+        add(1, 1, 0, 'b2s', bound=3, budget=600)
+    # ---- further sanitizer legs
+    if not quick:
+        add(1, 1, 0, 'b2s', t1='q', bound=1, mode='tsan', budget=200)
+        add(2, 1, 0, 'b3s', bound=1, mode='tsan', budget=200)
+        add(1, 32, 1, 'sq', t1='b2', bound=1, mode='asan', budget=200)
     return runs
 
 
-reg('C01', level='model_checking', runs=c01_runs, quick_budget_s=300, thorough_budget_s=2100,
+reg('C01', level='model_checking', runs=c01_runs, quick_budget_s=400, thorough_budget_s=2400,
     technique='stateless model checking of the real ThreadPool: every interleaving (up to a deviation bound) of 1-2 external producer threads, an optional pool-thread producer, the workers and the destructor drain; per-functor invocation counters',
-    level_text='Pools of 0, 1 and 2 threads, poolLoadMultiplier 1 and 32, signalling-wake and polling mode; producers run programs of <= 2 submissions over {schedule(f), schedule(f, ForceQueuingTag), scheduleBulk(k, gen) k=1..3}: every such program for one producer on one thread, selected pairs for two external producers, and a task running on a pool thread as a further producer; then T0 destroys the pool. Quick: every interleaving with <= 1 deviation; thorough: the wider program sets at bound 1, bound 2 on the smallest shapes (n=1 one producer, n=1 two producers, n=2 one producer) and bound 3 for n=1 with one producer. Oracle: each functor ran exactly once when ~ThreadPool returns and none starts afterwards; a functor that never runs leaves its counter at 0, a parked destructor is a deadlock verdict. Path markers (which thread ran the functor) must show inline execution by schedule and by scheduleBulk, execution by a worker from the central queue (single and bulk enqueue), inline execution on a pool thread, and the destructor\'s own drain.',
-    level_note='SC interleavings; the locality and steal rings are not reachable through the three public ThreadPool entry points of the statement (only through task sets, see C02/C03/C08), so they stay empty here; TSan and ASan legs on four small shapes.',
+    level_text='Pools of 0, 1 and 2 threads, poolLoadMultiplier 1 and 32, signalling-wake and polling mode; producers run programs of <= 2 submissions over {schedule(f), schedule(f, ForceQueuingTag), scheduleBulk(k, gen) k=1..3}: every such program for one producer (programs are chosen inside the run by exhaustive data nondeterminism), single submissions and selected programs for two external producers, and a task running on a pool thread as a further producer; then T0 destroys the pool. Quick: every interleaving with <= 1 deviation; thorough: the wider program sets at bound 1, bound 2 on the smallest shapes (n=1 one producer, n=1 two producers, n=2 one producer) and bound 3 for n=1 with one producer. Oracle: each functor ran exactly once when ~ThreadPool returns and none starts afterwards; a functor that never runs leaves its counter at 0, a parked destructor is a deadlock verdict. Path markers (which thread ran the functor) must show inline execution by schedule and by scheduleBulk, execution by a worker from the central queue (single and bulk enqueue), inline execution on a pool thread, and the destructor\'s own drain.',
+    level_note='SC interleavings; the locality and steal rings are not reachable through the three public ThreadPool entry points of the statement (only through task sets, see C02/C03/C08), so they stay empty here; TSan and ASan legs on two (thorough: four) small shapes.',
     design_ref='DESIGN.md section 4, C01', assumptions=MC_ASSUME,
     rule='one evaluation = one complete execution (construct pool, producers, destroy pool) of one configuration under one schedule; distinct_nontrivial = distinct scheduler states (reads-from history hashes) at which more than one continuation existed',
     guards=[need_cover('inline_schedule', 'inline_bulk', 'inline_fq_zero_threads', 'inline_on_pool_thread', 'worker_single', 'worker_bulk', 'dtor_drain'), need_outcomes(40)])
